@@ -117,6 +117,7 @@ Definition merged_add (key : name) (v : vobj) (m : list (name * vobj)) : list (n
 Record macc := {
   a_tree : ctree; a_dirty : bool; a_link : option name;
   a_msources : list name; a_mode : Z; a_bf : Z; a_created : option time; a_conf : Z;
+  a_inmem : bool;   (* the accumulator's root node is already in memory (cloned before) *)
 }.
 
 Fixpoint merge_loop (ps : list pfx) (skip : bool) (names : list name)
@@ -138,24 +139,45 @@ Fixpoint merge_loop (ps : list pfx) (skip : bool) (names : list name)
                       merge_loop ps skip rest
                         (Some {| a_tree := graft; a_dirty := false; a_link := v_link root;
                                  a_msources := [key]; a_mode := v_mode root; a_bf := v_bf root;
-                                 a_created := v_created root; a_conf := 0 |})
+                                 a_created := v_created root; a_conf := 0; a_inmem := false |})
                         (merged_add key root merged)
                   | Some a =>
                       if negb (a_bf a =? v_bf root) then Fail E_BF
-                      else if negb (a_mode a =? v_mode root) then Fail E_MERGE
                       else
-                        match merge_into (c_merge c) (c_veq c) (a_tree a) graft with
-                        | None => Fail E_PANIC (* the custom merge function panicked *)
-                        | Some t' =>
-                            merge_loop ps skip rest
-                              (Some {| a_tree := t';
-                                       a_dirty := a_dirty a || negb (tree_eqb t' (a_tree a));
-                                       a_link := a_link a;
-                                       a_msources := a_msources a ++ [key]; a_mode := a_mode a;
-                                       a_bf := a_bf a; a_created := a_created a;
-                                       a_conf := a_conf a + count_conflicts (a_tree a) graft |})
-                              (merged_add key root merged)
-                        end
+                        (* tree.Clone(): loads the accumulator's root node unless it is in memory;
+                           ANY error here makes mergeRoots skip this version ("continue") *)
+                        bind (match a_inmem a, a_link a with
+                              | false, Some l =>
+                                  Do (RGet PNode l) (fun r => match r with RObj (ONode _) => Ret true | _ => Ret false end)
+                              | _, _ => Ret true
+                              end) (fun cloned =>
+                        if negb cloned then merge_loop ps skip rest acc merged
+                        else if negb (a_mode a =? v_mode root) then Fail E_MERGE
+                        else
+                          (* Merge -> DiffIter loads the graft's root node again (twice: once to
+                             compare it with the accumulator's root, once to iterate it) *)
+                          bind (match v_link root with
+                                | Some l => Do (RGet PNode l) (fun _ =>
+                                              (* the first load happens in mast's alreadyNotified,
+                                                 which ignores its error; the second must succeed *)
+                                              Do (RGet PNode l) (fun r2 => match r2 with RObj (ONode _) => Ret true | _ => Ret false end))
+                                | None => Ret true
+                                end) (fun diffok =>
+                          if negb diffok then Fail E_MERGE
+                          else
+                            match merge_into (c_merge c) (c_veq c) (a_tree a) graft with
+                            | None => Fail E_PANIC (* the custom merge function panicked *)
+                            | Some t' =>
+                                merge_loop ps skip rest
+                                  (Some {| a_tree := t';
+                                           a_dirty := a_dirty a || negb (tree_eqb t' (a_tree a));
+                                           a_link := a_link a;
+                                           a_msources := a_msources a ++ [key]; a_mode := a_mode a;
+                                           a_bf := a_bf a; a_created := a_created a;
+                                           a_conf := a_conf a + count_conflicts (a_tree a) graft;
+                                           a_inmem := true |})
+                                  (merged_add key root merged)
+                            end))
                   end
               end)
         end)
@@ -185,20 +207,31 @@ Definition commit_needed (h : handle) : bool :=
         | None => Nat.eqb (length (h_msources h)) 0
         end).
 
-Definition commit (order : list name) (h : handle) : prog (handle * option name) :=
-  if negb (commit_needed h) then Ret (h, h_source h)
-  else if h_ro h then Fail E_RO
+(* result of Commit: the handle is returned in both cases because a failed commit still
+   changes it (mast marks flushed nodes clean before it knows whether the PUT succeeded) *)
+Inductive cres := COk (n : option name) | CFail (e : Z).
+
+Definition h_flushed (h : handle) (link : option name) : handle :=
+  {| h_ro := h_ro h; h_tree := h_tree h; h_dirty := false; h_link := link;
+     h_created := h_created h; h_source := h_source h; h_msources := h_msources h;
+     h_mode := h_mode h; h_bf := h_bf h; h_merged := h_merged h;
+     h_tombstoned := h_tombstoned h; h_conf := h_conf h |}.
+
+Definition commit (order : list name) (h : handle) : prog (handle * cres) :=
+  if negb (commit_needed h) then Ret (h, COk (h_source h))
+  else if h_ro h then Ret (h, CFail E_RO)
   else
-    (* MakeRoot: flush dirty nodes first *)
+    (* MakeRoot: flush dirty nodes first; (link, stored?) *)
     bind (if h_dirty h && negb (Nat.eqb (length (h_tree h)) 0)
           then Do (RHash (ONode (h_tree h))) (fun r =>
                  match r with
                  | RName n => Do (RPut PNode n (ONode (h_tree h))) (fun r2 =>
-                                match r2 with ROk => Ret (Some n) | _ => Fail E_STORE end)
+                                match r2 with ROk => Ret (Some n, true) | _ => Ret (Some n, false) end)
                  | _ => Fail E_BADOBJ
                  end)
-          else Ret (if h_dirty h then None else h_link h))
-      (fun link =>
+          else Ret (if h_dirty h then None else h_link h, true))
+      (fun '(link, stored) =>
+        if negb stored then Ret (h_flushed h link, CFail E_STORE) else
         let v := {| v_link := link; v_size := t_size (h_tree h); v_bf := h_bf h;
                     v_created := h_created h; v_parents := h_msources h; v_mode := h_mode h |} in
         Do (RHash (OVer v)) (fun r =>
@@ -215,8 +248,8 @@ Definition commit (order : list name) (h : handle) : prog (handle * option name)
                       Ret ({| h_ro := h_ro h; h_tree := h_tree h; h_dirty := false; h_link := link;
                               h_created := h_created h; h_source := Some n; h_msources := [n];
                               h_mode := h_mode h; h_bf := h_bf h; h_merged := [(n, v)];
-                              h_tombstoned := false; h_conf := h_conf h |}, Some n))
-                | _ => Fail E_STORE
+                              h_tombstoned := false; h_conf := h_conf h |}, COk (Some n)))
+                | _ => Ret (h_flushed h link, CFail E_STORE)
                 end)
           | _ => Fail E_BADOBJ
           end)).
@@ -248,7 +281,7 @@ Definition open (ro : bool) (only : option (list name)) (when : time)
                          h_merged := merged; h_tombstoned := false; h_conf := a_conf a |}
           end in
         if ro then Ret h
-        else bind (commit corder h) (fun '(h', _) => Ret h'))).
+        else bind (commit corder h) (fun '(h', r) => match r with COk _ => Ret h' | CFail e => Fail e end))).
 
 (* ---- local operations (no storage requests) ---- *)
 Definition src_of (h : handle) : name := match h_source h with Some n => n | None => 0 end.
